@@ -296,6 +296,70 @@ func schedQueueRemovalCancel(c *Ctx) *RuleResult {
 				return true
 			})
 			if lookup == nil {
+				// the queue comes from a find-or-create helper: decided inside the helper, for every
+				// return of the queue it looked up
+				var qident *ast.Ident
+				ast.Inspect(u.Decl.Body, func(n ast.Node) bool {
+					if as, ok := n.(*ast.AssignStmt); ok {
+						for _, l := range as.Lhs {
+							if lid, ok := l.(*ast.Ident); ok && info.ObjectOf(lid) == qobj {
+								qident = lid
+							}
+						}
+					}
+					return true
+				})
+				if qident != nil {
+					for _, dc := range definingCalls(u, qident) {
+						hu := p.UnitOf(calleeOf(info, dc))
+						if hu == nil {
+							continue
+						}
+						hinfo := hu.Info()
+						var hl *ast.AssignStmt
+						ast.Inspect(hu.Decl.Body, func(n ast.Node) bool {
+							la, ok := n.(*ast.AssignStmt)
+							if ok && len(la.Lhs) == 2 && len(la.Rhs) == 1 {
+								if ix, ok := ast.Unparen(la.Rhs[0]).(*ast.IndexExpr); ok && fieldOf(hinfo, ix.X) == scqs {
+									hl = la
+								}
+							}
+							return true
+						})
+						if hl == nil {
+							continue
+						}
+						hq, ok := hl.Lhs[0].(*ast.Ident)
+						if !ok {
+							continue
+						}
+						hobj := hinfo.ObjectOf(hq)
+						hg := NewFuncCFG(hinfo, hu.Decl.Body)
+						res := ""
+						ast.Inspect(hu.Decl.Body, func(n ast.Node) bool {
+							ret, ok := n.(*ast.ReturnStmt)
+							if !ok || len(ret.Results) == 0 {
+								return true
+							}
+							rid, ok := ast.Unparen(ret.Results[0]).(*ast.Ident)
+							if !ok || hinfo.ObjectOf(rid) != hobj {
+								return true
+							}
+							if reach, _ := hg.ReachableWithout(hl, ret, func(m ast.Node) bool {
+								if x, ok := m.(*ast.SelectorExpr); ok && fieldOf(hinfo, x) == ck {
+									if id, ok := rootOfSelector(x).(*ast.Ident); ok && hinfo.ObjectOf(id) == hobj {
+										return true
+									}
+								}
+								return false
+							}); reach {
+								res = posOf(p, ret)
+							}
+							return true
+						})
+						return res
+					}
+				}
 				// the queue is handed in by the caller: decided at every call site
 				if depth > 1 {
 					return "skip"
